@@ -129,6 +129,7 @@ class Gateway:
         self.open_channel: int | None = None  # channel whose ConnectResponse has been delivered
         self.data_endpoint_route_back = False
         self.after_connect_response: Callable[[], None] | None = None
+        self.receive_path_exceptions: list[tuple[float, str, str, str]] = []
         self.data_endpoint: tuple[str, int] | None = None  # announced in the last ConnectResponse (UDP)
         loop.on_send = self._on_send
 
@@ -174,10 +175,14 @@ class Gateway:
             self.connects_ok_delivered += 1
             self.open_channel = body.communication_channel
         self.note("rx", **info)
-        if isinstance(tr, FakeDatagramTransport):
-            tr.deliver(data, GATEWAY_ADDR)
-        else:
-            tr.deliver(data)
+        try:
+            if isinstance(tr, FakeDatagramTransport):
+                tr.deliver(data, GATEWAY_ADDR)
+            else:
+                tr.deliver(data)
+        except Exception as exc:  # noqa: BLE001 - the code under test raised in its receive path: recorded, never a harness crash
+            self.receive_path_exceptions.append((self.loop.time(), info["type"], type(exc).__name__, repr(exc)[:200]))
+            self.note("rx_raised", type=info["type"], exc=type(exc).__name__, detail=repr(exc)[:200])
         self.note("rx_done", type=info["type"])
         if (isinstance(body, ConnectResponse) and body.status_code is ErrorCode.E_NO_ERROR
                 and self.after_connect_response is not None):
@@ -213,7 +218,11 @@ class Gateway:
             self.note("transport_lost", tr=self.tr_index(tr))
             if tr is self.transport:
                 self.channel = None
-            tr.lose(None)
+            try:
+                tr.lose(None)
+            except Exception as exc:  # noqa: BLE001 - see _deliver
+                self.receive_path_exceptions.append((self.loop.time(), "connection_lost", type(exc).__name__, repr(exc)[:200]))
+                self.note("rx_raised", type="connection_lost", exc=type(exc).__name__, detail=repr(exc)[:200])
 
     # -- from the client -----------------------------------------------------
     def _on_send(self, tr: Any, data: bytes, addr: Any) -> None:
@@ -450,5 +459,9 @@ class SecureGateway(Gateway):
         self.note("rx", type="SessionStatus", status=status, tr=self.tr_index(tr))
         if tr is self.transport:
             self.channel = None  # the server drops the tunnel with the session
-        tr.deliver(srv.wrapped(ref.session_status(status)))
+        try:
+            tr.deliver(srv.wrapped(ref.session_status(status)))
+        except Exception as exc:  # noqa: BLE001 - see _deliver
+            self.receive_path_exceptions.append((self.loop.time(), "SessionStatus", type(exc).__name__, repr(exc)[:200]))
+            self.note("rx_raised", type="SessionStatus", exc=type(exc).__name__, detail=repr(exc)[:200])
         self.note("rx_done", type="SessionStatus")
